@@ -14,6 +14,7 @@ SV == {<<"O2", "50000000000000000000", "1500000000000000000">>,     \* 3 % std d
 ES == {<<"B3", <<>>>>,
        <<"B3", <<<<5, 7, 10, 4, 5>>>>>>,                        \* tag 5: 0.7 / 0.8
        <<"B3", <<<<5, 3, 8, 1, 2>>, <<7, 9, 10, 19, 20>>>>>>,   \* tag 5 below the bank's own weight, tag 7 above
+       <<"B3", <<<<5, 1, 10, 1, 10>>>>>>,                       \* tag 5 far below the bank's own weights: they still apply (max)
        <<"B4", <<<<5, 13, 20, 3, 4>>>>>>,                       \* the second debt bank agrees on tag 5 with other weights
        <<"B4", <<>>>>}
 RP == {<<"B1", [op_state |-> 2]>>, <<"B1", [op_state |-> 1]>>, <<"B1", [init_limit |-> 100]>>, <<"B1", [init_limit |-> 0]>>}
